@@ -898,31 +898,83 @@ func ruleE12(c *Ctx) []Ob {
 		tlist, _ := c.constOf(pkgDefs, "T_list")
 		s.check(got["set"] == tset && got["list"] == tlist && tset != 0, "set-list-tokens", c.Pos(fn.Pos()), `"set" -> T_set, "list" -> T_list`, fmt.Sprintf("set/list tokens map to %v (T_set=%d, T_list=%d)", got, tset, tlist))
 	}
-	// enum upgrade inside the name-match chain
-	if fd, _ := c.funcDecl(pkgDefs, "doParseType"); fd != nil {
-		pm := parentMap(fd)
-		found, inside, condOK := false, false, false
-		ast.Inspect(fd, func(n ast.Node) bool {
-			as, ok := n.(*ast.AssignStmt)
-			if !ok || len(as.Lhs) != 1 || types.ExprString(as.Lhs[0]) != "tag" || nows(types.ExprString(as.Rhs[0])) != "T_enum" {
-				return true
+	// enum upgrade inside the name-match chain: wherever the tag becomes the constant T_enum, the dominating conditions
+	// include tag == T_i64, vt != i64type and a failed keyword match (strings.Contains(...) false)
+	{
+		tenum, _ := c.constOf(pkgDefs, "T_enum")
+		ti64, _ := c.constOf(pkgDefs, "T_i64")
+		type origin struct {
+			conds []Cond
+			pos   string
+		}
+		var origins []origin
+		isEnumConst := func(v ssa.Value) bool {
+			cv, ok := v.(*ssa.Const)
+			if !ok || namedOf(cv.Type()) != "Tag" {
+				return false
 			}
-			found = true
-			// enclosing if: tag == T_i64 && vt != i64type
-			for cur := ast.Node(as); cur != nil; cur = pm[cur] {
-				if is, ok := cur.(*ast.IfStmt); ok {
-					cs := nows(types.ExprString(is.Cond))
-					if cs == "tag==T_i64&&vt!=i64type" {
-						condOK = true
-					}
-					if strings.Contains(cs, "strings.Contains(keywordTab[tag],tv)") {
-						inside = true
+			n, ok := constInt(cv)
+			return ok && n == tenum
+		}
+		for _, fn := range c.ModuleFuncs(pkgDefs) {
+			for _, b := range fn.Blocks {
+				for _, ins := range b.Instrs {
+					switch x := ins.(type) {
+					case *ssa.Phi:
+						for i, e := range x.Edges {
+							if !isEnumConst(e) {
+								continue
+							}
+							p := b.Preds[i]
+							cs := domConds(p)
+							if iff, ok := p.Instrs[len(p.Instrs)-1].(*ssa.If); ok && p.Succs[0] != p.Succs[1] {
+								cs = append(cs, Cond{V: iff.Cond, Truth: p.Succs[0] == b, If: iff})
+							}
+							origins = append(origins, origin{cs, c.Pos(firstPos(p))})
+						}
+					case *ssa.Return:
+						for _, r := range x.Results {
+							if isEnumConst(r) {
+								origins = append(origins, origin{domConds(b), c.InstrPos(x)})
+							}
+						}
 					}
 				}
 			}
-			return true
-		})
-		s.check(found && inside && condOK, "enum-upgrade", c.Pos(fd.Pos()), "int64-kinded named types become enums only when the annotation names the type", fmt.Sprintf("enum upgrade: present %v, conditioned on tag == T_i64 && vt != i64type %v, inside the keyword-mismatch (name match) chain %v: a named int64 annotated with the keyword i64 would silently become a 32-bit enum", found, condOK, inside))
+		}
+		found, inside, condOK := len(origins) > 0, true, true
+		pos := "-"
+		for _, o := range origins {
+			pos = o.pos
+			isI64, notI64Type, noKeyword := false, false, false
+			for _, cd := range o.conds {
+				if bo, ok := cd.V.(*ssa.BinOp); ok && (bo.Op == token.EQL || bo.Op == token.NEQ) {
+					equal := (bo.Op == token.EQL) == cd.Truth
+					for _, pr := range [][2]ssa.Value{{bo.X, bo.Y}, {bo.Y, bo.X}} {
+						if n, ok := constInt(pr[1]); ok && n == ti64 && namedOf(pr[0].Type()) == "Tag" && equal {
+							isI64 = true
+						}
+						if u, ok := pr[1].(*ssa.UnOp); ok && u.Op == token.MUL && !equal {
+							if g, ok := u.X.(*ssa.Global); ok && g.Name() == "i64type" {
+								notI64Type = true
+							}
+						}
+					}
+				}
+				if call, ok := cd.V.(*ssa.Call); ok && !cd.Truth {
+					if f := call.Call.StaticCallee(); f != nil && fnPkgPath(f) == "strings" && f.Name() == "Contains" && strings.Contains(path(call.Call.Args[0]), "keywordTab[") {
+						noKeyword = true
+					}
+				}
+			}
+			if !(isI64 && notI64Type) {
+				condOK = false
+			}
+			if !noKeyword {
+				inside = false
+			}
+		}
+		s.check(found && inside && condOK, "enum-upgrade", pos, "int64-kinded named types become enums only when the annotation names the type", fmt.Sprintf("enum upgrade: present %v, conditioned on tag == T_i64 && vt != i64type %v, inside the keyword-mismatch (name match) chain %v: a named int64 annotated with the keyword i64 would silently become a 32-bit enum", found, condOK, inside))
 	}
 	// descriptor cache key
 	if nt := c.SSA[pkgReflect].Func("newTType"); nt != nil {
